@@ -4,12 +4,20 @@
 //!  A  stationarity: ‖∇f(ŵ)‖₂ ≤ ρ·‖∇f(0)‖₂ with f = NLL + (α/2)‖W‖² (intercepts unpenalised), ρ = 1e-4 (two
 //!     classes) / 1e-2 (k > 2); reference gradient in f64 with compensated sums, log-sum-exp stable.
 //!  B  optimum: damped Newton in the harness gives f* (self-certified: own gradient ≤ 1e-10·‖∇f(0)‖, else the
-//!     case is inconclusive); (f(ŵ) − f*) ≤ 1e-4·(f(0) − f*).
+//!     case is inconclusive); (f(ŵ) − f*) ≤ 1e-4·(f(0) − f*). Verdict for two classes; for k > 2 the ratio is
+//!     recorded as a distribution only: the multi-class minimiser exhausts its fixed 1000 iterations in 1–3 % of
+//!     the fits (measured on the unchanged tree), where A with its ρ = 1e-2 still holds, so a 1e-4 gap would be
+//!     stricter than the statement.
 //!  C  for α ≥ 0: f(ŵ) finite and ≤ f(0); predicted labels are original label values and equal
 //!     classes[arg-max] (two classes: larger label iff score > 0) of the scores recomputed from the reported
 //!     parameters (rows whose decision gap is at rounding level are skipped).
 //!  L  L-BFGS (verification re-export) on SPD quadratics: an event log written by the f/df closures is
-//!     inspected offline: objective along accepted iterates never increases, final gradient reduction.
+//!     inspected offline: objective along accepted iterates (= points where df was evaluated) never increases
+//!     beyond 1e-12 relative, final ‖g‖ ≤ 1e-6·‖g0‖ + 1e-7 (+ an allowance for the rounding noise of the objective
+//!     values the harness itself hands to the minimiser, see NOISE_C), no panic, ≤ 1000 iterations.
+//!
+//! Families: lr_binary, lr_multi (α ∈ [1e-2,10]: A, B, C), lr_alpha0, lr_alpha0_lattice (α = 0: C only),
+//! lr_mixed (mixed feature scales: informational, no verdict), lbfgs_quad (L).
 #![allow(non_snake_case)]
 use scverif::refla::*;
 use scverif::*;
@@ -23,6 +31,11 @@ const RHO_BINARY: f64 = 1e-4;
 const RHO_MULTI: f64 = 1e-2;
 const GAP_TOL: f64 = 1e-4;
 const NEWTON_CERT: f64 = 1e-10;
+/// Oracle B for k > 2 as a verdict. Off: on the unchanged tree the multi-class minimiser runs into its fixed
+/// max_iter = 1000 in 1-3 % of the fits (gap up to 1e-1). With `max_iter: 100_000` in
+/// `LogisticRegression::minimize` all 18 000 probe fits had gap <= 1e-5 and gradient ratio <= 1.3e-6, i.e. the
+/// flag can be switched on (and RHO_MULTI lowered to 1e-4) once the iteration cap is lifted in the library.
+const B_MULTI_VERDICT: bool = false;
 /// allowance for the rounding noise of the objective the harness hands to L-BFGS: NOISE_C·sqrt(λmax·ε·fmag)
 const NOISE_C: f64 = 20.0;
 
@@ -181,7 +194,7 @@ fn draw_data(c: &mut Case, k: usize, mixed: bool) -> Data {
 fn draw_lattice(c: &mut Case, k: usize) -> Data {
     let rng = &mut c.rng;
     let p = rng.us(1, 2);
-    let mult = *rng.pick(&[0.1, 0.5, 1.0, 2.0, 5.0, 10.0]);
+    let mult = *rng.pick(&[0.1, 0.5, 0.5, 1.0, 2.0, 5.0, 5.0, 10.0, 10.0]);
     for _ in 0..200 {
         let n = rng.us(6, 12);
         let u = Mat::from_fn(n, p, |_, _| rng.int(-10, 10) as f64);
@@ -730,15 +743,14 @@ fn logistic_case(c: &mut Case, k: usize, mode: &str) {
                 if denom > 1e-9 * f0.abs() {
                     let gap = (fw - nt.f).max(0.0);
                     c.bucket(&decade_bucket(&format!("{}:objective-gap", tag), gap / denom));
-                    if k == 2 {
-                        c.ratio("lr.optimum-gap.binary", gap, GAP_TOL * denom, &sg, || {
+                    if k == 2 || B_MULTI_VERDICT {
+                        c.ratio(&format!("lr.optimum-gap.{}", tag), gap, GAP_TOL * denom, &sg, || {
                             format!("f(ŵ) = {:.15e}, f* = {:.15e} (Newton, {} iterations, own gradient {:e}), f(0) = {:.15e}, relative gap {:e}, alpha = {}", fw, nt.f, nt.iters, nt.gnorm, f0, gap / denom, alpha)
                         });
                     } else {
                         // k > 2: informational (see assumptions): the multi-class minimiser exhausts its fixed 1000
                         // iterations in 1-3 % of the fits; there the statement's own criterion (A, rho = 1e-2)
                         // still holds while a 1e-4 objective gap would be stricter than the statement.
-                        c.count("info:optimum-gap.multiclass(no verdict)");
                         c.bucket(if gap <= GAP_TOL * denom { "info:multiclass:objective-gap-within-1e-4" } else { "info:multiclass:objective-gap-ABOVE-1e-4(no verdict)" });
                     }
                 } else {
@@ -1047,8 +1059,9 @@ fn main() {
         assumptions: vec![
             "objective convention: NLL + (alpha/2)·‖W‖² with unpenalised intercepts (the convention under which the unchanged code is stationary); two classes: the larger label is the positive class",
             "'features scaled 1e-1..1e2' is read as one scale per data set with per-feature jitter in [0.5,2]; data sets mixing scales 0.1 and 100 are run as informational only (no verdict)",
-            "stationarity thresholds: 1e-4 (two classes), 1e-2 (k > 2) relative to ‖∇f(0)‖₂; optimum gap 1e-4·(f(0) − f*) with f* from a self-certified damped Newton reference",
-            "L-BFGS quadratics: final ‖g‖₂ <= 1e-6·‖g0‖₂ + 1e-7 (the minimiser's own stopping rule is the absolute ‖g‖∞ <= 1e-8); the objective closure evaluates in plain f64, monotonicity is judged on exactly the values the minimiser saw, slack 1e-12 relative to the size of the objective's terms",
+            "stationarity thresholds: 1e-4 (two classes), 1e-2 (k > 2) relative to ‖∇f(0)‖₂; optimum gap 1e-4·(f(0) − f*) with f* from a self-certified damped Newton reference is a verdict for two classes only; for k > 2 the gap is recorded as a distribution (buckets) because the multi-class minimiser exhausts its fixed 1000 iterations in 1-3 % of the fits where the stationarity criterion still holds",
+            "a start whose gradient is below 1e-3·sqrt(dim) (already stationary at the level of the minimiser's absolute stopping rule ‖g‖∞ <= 1e-8) gets no stationarity/optimum verdict",
+            "L-BFGS quadratics: final ‖g‖₂ <= 1e-6·‖g0‖₂ + 1e-7 + 20·sqrt(λmax·ε·fmag(x_final)) (the minimiser's own stopping rule is the absolute ‖g‖∞ <= 1e-8; the last term is the resolution limit of the objective values the harness closure itself supplies: fmag = sum of the magnitudes of the terms of q(x); it vanishes for the centred form ½(x−x*)ᵀA(x−x*) and matters only for the expanded form ½xᵀAx−bᵀx started close to a minimiser of large norm; measured use of the allowance <= 10 %); monotonicity is judged on exactly the values the minimiser saw, slack 1e-12 relative to the size of the objective's terms",
             "f64 only; default LBFGS parameters (m = 10, max_iter = 1000) and default Backtracking with order SECOND / THIRD",
             "prediction rows whose decision gap is below 1e-9·(1 + Σ|x_j w_j| + |b|) are skipped",
         ],
@@ -1056,7 +1069,7 @@ fn main() {
             Family::new("lr_binary", 2500, 50000, lr_binary),
             Family::new("lr_multi", 1500, 30000, lr_multi),
             Family::new("lr_alpha0", 1500, 30000, lr_alpha0),
-            Family::new("lr_alpha0_lattice", 400, 8000, lr_alpha0_lattice),
+            Family::new("lr_alpha0_lattice", 1500, 30000, lr_alpha0_lattice),
             Family::new("lr_mixed", 200, 4000, lr_mixed),
             Family::new("lbfgs_quad", 5000, 100000, lbfgs_quad),
         ],
